@@ -70,4 +70,5 @@ pub fn run(ctx: &Ctx) {
     ctx.generated("long-inputs", "cbrt", n / 2, "40..max digits with p in 1..20: more than 3(p+4) digits", move || long_input_strategy(max_len, true), check_cbrt);
     ctx.generated("constructed-roots", "cbrt", n, "x = +-R^3 (+-1 in a far digit) where R = p digits ++ {nothing, 5, 50..0x, 49..9x, 0..0x, 9..9x}", || constructed_strategy(3, 160, true), check_cbrt);
     ctx.generated("exact-roots-large-p", "cbrt", n / 2, "x = R^3 with R of 1..60 digits without trailing zeros (also +-1 in a far digit), p = digits(R) + 0..130 / 100 / 150 / 160, trailing zeros and scales of every residue", || super::c10::exact_large_p_strategy(3, true), check_cbrt);
+    ctx.generated("word-sized-near-powers", "cbrt", n / 2, "x = R^3 * 10^(3j) -+ {1,2,3} with R of 1..6 digits and x of 12..40 digits (u64 / u128 sized), p = digits(R) or the root's full length (-1)", || super::c10::word_sized_strategy(3, true), check_cbrt);
 }
